@@ -56,6 +56,25 @@ func (g *G) stmt(bd int) []hs.Stmt {
 		return []hs.Stmt{g.println(0)}
 	}
 	r := g.pick("stmtKind", 100)
+	if g.c.Pure && len(g.fns) > 0 && g.chance("pureCallStmt", 15) {
+		// calls happen at statement level only: let v = f(pure args);
+		f := g.fns[g.pick("pureCallee", len(g.fns))]
+		c := hs.Call{Fn: hs.Ident{Name: f.name, T: hs.TFn(f.ret, f.params...)}, T: f.ret}
+		for _, p := range f.params {
+			c.Args = append(c.Args, g.expr(p, d-1))
+		}
+		g.feat("call")
+		if f.ret.K == hs.KNull {
+			return []hs.Stmt{hs.ExprStmt{X: c}}
+		}
+		name := g.fresh("v")
+		g.declare(varInfo{name: name, t: f.ret})
+		st := []hs.Stmt{hs.Let{Name: name, X: c}}
+		if printable(f.ret) {
+			st = append(st, hs.ExprStmt{X: hs.Call{Fn: hs.Ident{Name: "println"}, Args: []hs.Expr{hs.Ident{Name: name, T: f.ret}}, T: hs.TNull}})
+		}
+		return st
+	}
 	switch {
 	case r < 22:
 		return []hs.Stmt{g.println(d)}
